@@ -108,12 +108,14 @@ func verifObjectHeaderPair(version uint8) {
 	ohw := &ObjectHeaderWriter{Version: version, Flags: 0, RefCount: 1}
 	types := []MessageType{MsgDataspace, MsgDatatype, MsgAttribute}
 	if version == 1 {
-		types = []MessageType{MsgDataspace, MsgDatatype, MsgDataLayout} // (an attribute message would be parsed on read and fork on every data byte)
+		types = []MessageType{MsgFillValue, MessageType(0x12), MessageType(0x0A)} // fill value, modification time, group info: carried as opaque data (a message the reader parses would fork on every data byte)
 	}
 	for i := 0; i < n; i++ {
-		l := 1 + vrt.Choice(4)
+		var l int
 		if version == 1 {
 			l = []int{1, 7, 8, 9}[vrt.Choice(4)]
+		} else {
+			l = 1 + vrt.Choice(4)
 		}
 		ohw.Messages = append(ohw.Messages, MessageWriter{Type: types[vrt.Choice(len(types))], Data: vrt.Bytes(l)})
 	}
